@@ -44,6 +44,40 @@ func genVac(r *rand.Rand) *VacParams {
 			}
 		}
 	}
+	deep := r.IntN(4) == 0
+	if deep {
+		// recurring content in a tree of several nodes: one writer loads 6..20 rows, then adds one or two rows
+		// and deletes them again, each in its own version; purging the markers returns the tree to the
+		// loaded content, node for node, while an older version that still has the markers is retained
+		// next to the current one. Nodes dropped between two condemned versions are in use again.
+		mw.EPN = []int{2, 3, 4}[r.IntN(3)]
+		n := 6 + r.IntN(15)
+		var sc []MWOp
+		id := 0
+		next := func(op MWOp) MWOp {
+			id++
+			op.ID, op.WT = id, int64(id)*int64(time.Millisecond)+int64(r.IntN(1000))
+			return op
+		}
+		sc = append(sc, MWOp{Op: "begin"})
+		for i := 0; i < n; i++ {
+			sc = append(sc, next(MWOp{Op: "insert", Key: 1 + 2*i, Set: map[string]int{mw.Cols[0]: genVal(r, id+1, 0)}}))
+		}
+		sc = append(sc, MWOp{Op: "commit"})
+		for j, m := 0, 1+r.IntN(2); j < m; j++ {
+			x := []int{2 * n * 2, 0, 2 * (1 + r.IntN(n-1)), 1000 + j}[r.IntN(4)]
+			sc = append(sc, next(MWOp{Op: "insert", Key: x, Set: map[string]int{mw.Cols[0]: genVal(r, id+1, 0)}}))
+			if r.IntN(2) == 0 {
+				sc = append(sc, MWOp{Op: "advance", Dur: []int64{1, 1e6, 1e9}[r.IntN(3)]})
+			}
+			sc = append(sc, next(MWOp{Op: "delete", Key: x}))
+		}
+		if r.IntN(3) == 0 {
+			sc = append(sc, next(MWOp{Op: "update", Key: 1 + 2*r.IntN(n), Set: map[string]int{mw.Cols[0]: genVal(r, id+1, 0)}}))
+		}
+		mw.Scripts = [][]MWOp{sc}
+		mw.Skew = nil
+	}
 	p := &VacParams{MW: *mw, Late: r.IntN(2) == 0}
 	nv := 1 + r.IntN(3)
 	for i := 0; i < nv; i++ {
@@ -54,6 +88,12 @@ func genVac(r *rand.Rand) *VacParams {
 		} else if r.IntN(3) == 0 {
 			v.DelErr = 1 + r.IntN(6)
 			v.DelLost = r.IntN(2) == 0
+		}
+		if deep {
+			v.Client = 0
+			if i == 0 && r.IntN(3) != 0 {
+				v.Kind, v.Delta = "now", 0
+			}
 		}
 		p.Vacuums = append(p.Vacuums, v)
 	}
@@ -239,11 +279,15 @@ func runVacuum(x *Exec, prop string) {
 			}
 			return true
 		}
-		interrupted := "" // class suffix once some vacuum of this run was cut short inside its delete phase
+		interrupted := "" // class suffix when this vacuum was cut short inside its delete phase, by where it stopped
 		for vi, vs := range p.Vacuums {
 			if x.Failed() || w.Viol != nil {
 				return
 			}
+			// (per vacuum: what an interrupted and then repeated vacuum leaks is judged against the bucket before
+			// that vacuum; the version objects that led to the leaked nodes are gone afterwards, so a later
+			// vacuum neither sees nor is blamed for it)
+			interrupted = ""
 			vc := writers[vs.Client]
 			t := m.Tables[vc.Name]
 			last := vi == len(p.Vacuums)-1
@@ -297,7 +341,7 @@ func runVacuum(x *Exec, prop string) {
 						// still stored (all the unchanged code can do there), or later
 						if r.Class() != "node" || versionsGone > 0 {
 							interrupted = "-after-interrupted-vacuum"
-						} else if interrupted == "" {
+						} else {
 							interrupted = "-after-interrupted-node-deletes"
 						}
 						if vs.DelLost {
